@@ -58,6 +58,27 @@ CLAIMED.update({
             "DESIGN.md §3 C08", "symbolic push;pop composition by abstract interpretation; composite-literal completeness and field-write ownership"),
 })
 
+CLAIMED.update({
+    "C06": ("other",
+            "Decides the attack relation's construction completely at the level of tables and table builders, without any position: each of the "
+            "hand-typed index tables is a permutation, and for all 64 squares x 4 line kinds the window (view, offset, mask) an attack function "
+            "reads maps - through the very index table RotatedBitboard.Xor writes that view with - exactly onto the geometric line through the "
+            "square; the initialiser body of each slider table, partially evaluated per square with the line state symbolic, gives for every class "
+            "of states (first blocker per direction) exactly the ray up to and including the first blocker; king/knight tables and pawn boards are "
+            "evaluated for every square against geometry (no wrap-around) and pawn boards are bitwise-linear; dispatch and the derived queries "
+            "(IsAttackedBy per kind, IsChecked, IsCheckMate, FindCapture, FindPins) are checked for colour/kind/view discipline. Assumes the "
+            "initialisers execute the analysed bodies over the ranges read from the loop headers.",
+            "DESIGN.md §3 C06", "literal-table algebra + partial evaluation of table-initialiser loop bodies per square with symbolic line state (abstract interpretation over go/ssa)"),
+    "C14": ("other",
+            "Decides that the FEN writer's and reader's letter tables (12 pieces, side, 16 castling states, files, ranks) are standard and mutually "
+            "inverse; that Encode scans A8..H1 with separators between ranks only and Decode's cursor starts at A8 and moves 1 per piece / n per "
+            "digit, placing on the cursor square; that every same-typed int (half-move clock, full-move number) and the side to move are wired to "
+            "the right field in Decode, Encode, Engine.Position, Engine.Reset, NewBoard and the Board getters; that the reported half-move clock "
+            "resets exactly on pawn moves/captures and the full-move number grows exactly after Black's move. Round-trip for every concrete "
+            "position/string is not decided.",
+            "DESIGN.md §3 C14", "switch-table extraction by abstract interpretation, argument-provenance (wiring) checks over SSA, symbolic scan-order evaluation"),
+})
+
 NOT_APPLICABLE = {
     "C11": "Transparency of the transposition table is a numeric equality between two complete searches over all positions x depths x table sizes x search sequences; no sound static abstraction in reach bounds it. Its shape-visible clauses are decided under C12 (no store after cancellation, exact bound only after a full loop), C04 (root exits) and C17 (slot discipline).",
 }
